@@ -8,6 +8,10 @@ shapes these bodies use:
     std::get<D_INT>(v)                 Val.withInt v fun x => …        (bad_variant_access = .throw)
     int used as a condition            decide (x ≠ 0)
     static_cast<D_INT>(double)         FloatOps.toInt
+    static_cast<double>(int)           FloatOps.ofInt
+    std::numeric_limits<int>::max()    the literal 2147483647 (min / lowest: -2147483648)
+    integer literals, `base_t(0)`      Int literals
+    `>=` `<=` `!=` … on doubles, `const auto v(p.fetch_param())`, `if … return …` chains: translate_real's
     value_t(int) / value_t(bool)       Val.int / Val.ofBool
     p.fetch_var(var_)                  .var k fun v => …   (k = the symbol's own feature index, a parameter)
     constant<T>::eval() / val_         the stored value, a parameter of the term
@@ -17,7 +21,7 @@ import sys
 
 sys.path.insert(0, os.path.dirname(os.path.abspath(__file__)))
 import translate_real as R  # noqa: E402
-from cxx2lean import Refuse, ast_dump, kids, qtype, peel, callee_name, find_all  # noqa: E402
+from cxx2lean import Refuse, ast_dump, kids, qtype, peel, callee_name, find_all, LIMITS  # noqa: E402
 
 TU = "prims01_tu.cc"
 VALUE_T = ("vita::value_t", "std::variant<std::monostate, int, double, std::basic_string<char>>",
@@ -56,8 +60,24 @@ class Tr(R.Tr):
                         raise Refuse("floating-to-integral conversion from %s" % ty)
                     return k("(FloatOps.toInt %s)" % t, "int")
                 return self.ex(ks[0], conv2)
+            if ck == "IntegralToFloating" and plain(n) == "double":
+                def conv3(t, ty):
+                    if ty == "int":
+                        return k("(FloatOps.ofInt %s)" % t, "dbl")
+                    if ty == "nat":
+                        return k("(FloatOps.ofNat %s)" % t, "dbl")
+                    raise Refuse("integral-to-floating conversion from %s" % ty)
+                return self.ex(ks[0], conv3)
             if ck in ("ConstructorConversion",) or (ck in R.PASS_CASTS):
                 return self.ex(ks[0], k)
+        if kd == "IntegerLiteral" and plain(n) == "int":
+            return k("(%d)" % int(n["value"]), "int")
+        if kd == "CallExpr" and callee_name(n) in ("max", "min", "lowest") and len(ks) == 1 and plain(n) == "int":
+            f = peel(ks[0])
+            ftype = f.get("type", {}).get("qualType", "")
+            if ftype.startswith("int ()") and "noexcept" in ftype:      # std::numeric_limits<int>::max() …
+                return k("(%d)" % LIMITS[("i32", callee_name(n))], "int")
+            raise Refuse("call to %r of type %r" % (callee_name(n), ftype))
         if kd in ("CXXConstructExpr", "CXXTemporaryObjectExpr") and plain(n) in VALUE_T and len(ks) == 1:
             return self.ex(ks[0], lambda t, ty: k(to_val(t, ty), "val"))
         if kd == "CallExpr" and callee_name(n) == "get" and len(ks) == 2 and plain(n) == "int":
